@@ -1253,10 +1253,16 @@ impl PrimitiveFunction {
 }
 
 impl PartialEq for PrimitiveFunction {
-    /// Avoid comparing the variable mapping, which should always be the same
-    /// in the case where [`PrimitiveFunction::location`]'s are equal.
+    /// Two function values are equal when they run the same code on the same captured variables.
+    /// One function literal evaluated twice gives two closures with one location and different
+    /// variables (`mk(1)` and `mk(2)`): the variables are compared by identity, not by content.
     fn eq(&self, other: &Self) -> bool {
         self.location == other.location
+            && match (&self.callback_state, &other.callback_state) {
+                (None, None) => true,
+                (Some(mine), Some(theirs)) => mine.has_same_cells(theirs),
+                _ => false,
+            }
     }
 }
 
